@@ -107,4 +107,8 @@ CCRAB2 == <<240, 159, 128, 166>>
 \* characters at the ends of each encoded width and around the surrogate gap:
 \* U+0 (an in-band sentinel in careless code) U+7F U+80 U+7FF U+800 U+D7FF U+E000 U+FFFF U+10000 U+10FFFF
 EdgeChars == {Encode(c) : c \in {0, 127, 128, 2047, 2048, 55295, 57344, 65535, 65536, 1114111}}
+\* one character for every possible lead byte C2..DF, E0..EF, F0..F4 (the first scalar value with that lead byte), and
+\* one whose continuation bytes are all BF for the widths 3 and 4: a table of lead bytes with a missing row shows here
+LeadScalars == {128 + 64 * q : q \in 0..29} \cup {2048} \cup {4096 * q : q \in 1..15} \cup {65536} \cup {262144 * q : q \in 1..4}
+LeadChars == {Encode(c) : c \in LeadScalars}
 =============================================================================
